@@ -287,7 +287,11 @@ def script_st(draw):
     nst = draw(st.integers(1, 12))
     tmax = draw(st.sampled_from([None, dt * nst, dt * nst + dt / 3, dt * nst - dt / 7]))
     ts = sorted(draw(st.lists(st.integers(0, 16), min_size=1, max_size=4)))
-    return {"sys": tiny_system(kind, ncell, vals, two), "route": "ctor", "units": dict(DEF_US),
+    units = dict(DEF_US)
+    if draw(st.integers(0, 2)) == 0:
+        # the script's own space / quantity unit (time stays s: the bare time numbers above are seconds)
+        units = {"space": draw(st.sampled_from(si.SPACE_SYMS)), "time": "s", "quantity": draw(st.sampled_from(si.QUANTITY_SYMS))}
+    return {"sys": tiny_system(kind, ncell, vals, two), "route": "ctor", "units": units,
             "t_sample": [v * dt * 0.75 for v in ts], "time_step": dt, "t_max": tmax,
             "policy": draw(st.sampled_from(["on_t_sample", "on_iteration", "on_interval", "no_sampling"])),
             "interval": dt * 2.5, "seed": draw(st.integers(0, 2 ** 32 - 1)),
